@@ -399,7 +399,7 @@ func c21Run(t *testing.T, c c21Case, r *vp.Rec) error {
 		ty := styp(st.Uni)
 		switch st.Kind {
 		case "open":
-			s, err := tc.conn.newLocalStream(ctx, ty)
+			s, err := c21Open(tc.conn, ctx, ty)
 			if err != nil {
 				refused[ty] = true
 				r.Class("local-open-refused")
@@ -421,7 +421,7 @@ func c21Run(t *testing.T, c c21Case, r *vp.Rec) error {
 			a := &c21Async{uni: st.Uni, done: make(chan struct{})}
 			go func() {
 				defer close(a.done)
-				a.s, a.err = tc.conn.newLocalStream(bctx, ty)
+				a.s, a.err = c21Open(tc.conn, bctx, ty)
 			}()
 			pending = append(pending, a)
 			synctest.Wait()
@@ -521,12 +521,12 @@ func c21Run(t *testing.T, c c21Case, r *vp.Rec) error {
 		case "localclose":
 			// the app opens a stream of its own and closes it completely: this must
 			// not give the peer any stream credit
-			s, err := tc.conn.newLocalStream(ctx, ty)
+			s, err := c21Open(tc.conn, ctx, ty)
 			if err != nil {
 				// at the peer's limit: the peer grants one more stream first
 				peerMax[ty] = min(peerMax[ty]+1, maxStreamsLimit)
 				tc.writeFrames(packetType1RTT, debugFrameMaxStreams{streamType: ty, max: peerMax[ty]})
-				if s, err = tc.conn.newLocalStream(ctx, ty); err != nil {
+				if s, err = c21Open(tc.conn, ctx, ty); err != nil {
 					r.Class("local-open-refused")
 					break
 				}
@@ -572,7 +572,7 @@ func c21Run(t *testing.T, c c21Case, r *vp.Rec) error {
 			r.Class("late-frame-for-closed-local-stream")
 			switch st.M {
 			case 1:
-				s, err := tc.conn.newLocalStream(ctx, ty)
+				s, err := c21Open(tc.conn, ctx, ty)
 				if err != nil {
 					refused[ty] = true
 					break
@@ -588,7 +588,7 @@ func c21Run(t *testing.T, c c21Case, r *vp.Rec) error {
 				a := &c21Async{uni: st.Uni, done: make(chan struct{})}
 				go func() {
 					defer close(a.done)
-					a.s, a.err = tc.conn.newLocalStream(bctx, ty)
+					a.s, a.err = c21Open(tc.conn, bctx, ty)
 				}()
 				pending = append(pending, a)
 				synctest.Wait()
@@ -670,4 +670,19 @@ func TestVP_C21(t *testing.T) {
 	vp.Run(t, vp.Spec[c21Case]{ID: "C21", CrashFile: true, Gen: c21Gen, Known: c21Known, Prop: func(c c21Case, r *vp.Rec) error {
 		return vp.Bubble(func(bt *testing.T) error { return c21Run(bt, c, r) })
 	}})
+}
+
+// c21Open opens a local stream through the public constructors.
+func c21Open(c *Conn, ctx context.Context, ty streamType) (*Stream, error) {
+	var s *Stream
+	var err error
+	if ty == bidiStream {
+		s, err = c.NewStream(ctx)
+	} else {
+		s, err = c.NewSendOnlyStream(ctx)
+	}
+	if err == nil && s != nil && s.id.streamType() != ty {
+		return s, fmt.Errorf("the constructor for %v streams returned stream %d of type %v", ty, s.id, s.id.streamType())
+	}
+	return s, err
 }
